@@ -87,6 +87,18 @@ fn check_map(map: &Beatmap, d: &Difficulty, label: &str, mods: &rosu_pp::GameMod
                 out.push(json!({"what": "catch_stars_from_peaks", "label": label, "expected": want, "observed": a.stars}));
             }
         }
+        (Strains::Taiko(s), DifficultyAttributes::Taiko(a)) => {
+            // every taiko skill rating is the weighted sum of its peaks times the skill multiplier (the rhythm skill depends on the
+            // great hit window: the strains path must read the same settings - clock rate, OD override - as the attributes path)
+            const D: f64 = 0.084375;
+            for (name, peaks, mult, got) in [("rhythm", &s.rhythm, 0.65 * D, a.rhythm), ("reading", &s.reading, 0.100 * D, a.reading),
+                                             ("color", &s.color, 0.375 * D, a.color), ("stamina", &s.stamina, 0.445 * D, a.stamina)] {
+                let want = weighted(peaks, 0.9) * mult;
+                if !rel_close(want, got, 1e-9) {
+                    out.push(json!({"what": "taiko_rating_from_peaks", "label": format!("{label} [{name}]"), "expected": want, "observed": got}));
+                }
+            }
+        }
         (Strains::Osu(s), DifficultyAttributes::Osu(a)) => {
             let sum: f64 = s.flashlight.iter().sum();
             let mut want = sum.sqrt() * 0.0675;
@@ -197,6 +209,17 @@ pub fn main(args: &[String]) -> i32 {
                 "taiko" => rosu_pp::model::mode::GameMode::Taiko,
                 "catch" => rosu_pp::model::mode::GameMode::Catch,
                 _ => rosu_pp::model::mode::GameMode::Mania,
+            };
+            // mania: the lazer-only mods that rewrite the object list (HoldOff, Invert) on every second map
+            let (cfg, d) = if t == "mania" && cfg.random_seed.is_none() && cfg.da_scroll.is_none() && k % 2 == 0 {
+                let c2 = cfg.with_acronyms(["HO", "IN", "IN,HO"][(k / 2) % 3]);
+                let mut d2 = c2.difficulty();
+                if let Some(p) = d.clone().inspect().passed_objects {
+                    d2 = d2.passed_objects(p);
+                }
+                (c2, d2)
+            } else {
+                (cfg.clone(), d.clone())
             };
             let Ok(map) = native.clone().convert(gm, &cfg.game_mods()) else { continue };
             rich += 1;
